@@ -192,7 +192,7 @@ Qed.
 Variable T0 : Z.
 Hypothesis Hmeth : cf_method cfg = MMeek.
 Hypothesis Hseats : 0 <= cf_nseats cfg.
-Notation MI := (MI A S ZL T0).
+Notation MI := (MI A S ZL cfg T0).
 
 Definition kf_range (st : cstate) (k : Z) : Prop :=
   match st with
@@ -326,9 +326,9 @@ Lemma ki_distribute (s : est) : MI s -> KI s -> crashed (distribute_votes A cfg 
   KI (distribute_votes A cfg s) /\ NN (distribute_votes A cfg s).
 Proof.
   intros M [K1 [K2 K3 K4 K5]] Hcf.
-  destruct (distribute_spec A S ZL cfg s (mi_nd _ _ _ _ _ M) Hcf) as [D1 D2 D3 D4 D5 D6].
+  destruct (distribute_spec A S ZL cfg s (mi_nd _ _ _ _ _ _ M) Hcf) as [D1 D2 D3 D4 D5 D6].
   destruct (distribute_nn s (ok_kfb _ K1)) as ((_ & HV & Hr) & Fb & Ee); [|exact K2|exact K3|].
-  { intros c Hc Hh. rewrite (mi_z0 _ _ _ _ _ M c Hc Hh). lia. }
+  { intros c Hc Hh. rewrite (mi_z0 _ _ _ _ _ _ M c Hc Hh). lia. }
   split; [split; [|constructor]|split; [exact HV|exact Hr]].
   - intros c' Hc'. destruct (relk_in A _ _ _ c' D2 Hc') as (c & Hc & Hrk). destruct (rk_id A _ _ _ Hrk) as (_ & E2 & _ & E4).
     unfold ok_c, kfr, kf_of. rewrite E2, E4. exact (K1 c Hc).
@@ -449,7 +449,7 @@ Proof.
   destruct H3 as (K3 & N3 & M3).
   split.
   - match goal with |- KI (set_surplus ?x _) => apply (ki_same x); [reflexivity|reflexivity|reflexivity|reflexivity|reflexivity|] end.
-    apply ki_elect_fold; [|exact K3]. intros w Hw. apply filter_In in Hw. apply hopeful_kf_at; [exact (mi_nd _ _ _ _ _ M3)|exact (proj1 K3)|exact (proj1 Hw)].
+    apply ki_elect_fold; [|exact K3]. intros w Hw. apply filter_In in Hw. apply hopeful_kf_at; [exact (mi_nd _ _ _ _ _ _ M3)|exact (proj1 K3)|exact (proj1 Hw)].
   - match goal with |- NN (set_surplus ?x _) => apply (nn_same x); [reflexivity|reflexivity|] end.
     apply nn_fold; [|exact N3]. intros t c Nt. apply (nn_same (elect A cfg (cid c) "Elect" false t)); [reflexivity|reflexivity|]. apply nn_elect. exact Nt.
 Qed.
@@ -457,7 +457,7 @@ Qed.
 
 (* ---- ties, exclusions, the closing loop ---- *)
 Definition J (s : est) : Prop := MI s /\ KI s.
-Definition JV (s : est) : Prop := MV A S ZL T0 s /\ KI s /\ NN s.
+Definition JV (s : est) : Prop := MV A S ZL cfg T0 s /\ KI s /\ NN s.
 
 Lemma ki_break_tie fmt tied (s : est) : KI s -> KI (fst (break_tie A cfg fmt tied s)).
 Proof.
@@ -554,7 +554,7 @@ Proof.
   destruct H' as (M' & K' & Hh'). change (final_step t c) with (distribute_votes A cfg s') in *.
   apply IH; [exact Hnd'| | |exact Hc].
   - split; [exact (proj1 (mi_distribute A S ZL cfg T0 _ M' C1))|exact (proj1 (ki_distribute _ M' K' C1))].
-  - intros x Hx. apply hop_at_distribute; [exact (mi_nd _ _ _ _ _ M')|exact C1|apply Hh'; exact Hx].
+  - intros x Hx. apply hop_at_distribute; [exact (mi_nd _ _ _ _ _ _ M')|exact C1|apply Hh'; exact Hx].
 Qed.
 
 Lemma j_final (s : est) : J s -> crashed (meek_final A cfg true s) = false -> J (meek_final A cfg true s).
@@ -562,9 +562,9 @@ Proof.
   intros Hj. unfold meek_final. cbv zeta. cbn [crashed set_residual set_votes]. intros Hc.
   match goal with |- J (set_residual (set_votes ?x _) _) =>
     assert (Hx: J x); [|destruct Hx as [Mx Kx]; split; [revert Mx; apply mi_same; reflexivity|revert Kx; apply ki_same; reflexivity]] end.
-  apply (j_final_fold (hopefuls A s)); [apply nodup_map_filter; exact (mi_nd _ _ _ _ _ (proj1 Hj))|exact Hj| |exact Hc].
+  apply (j_final_fold (hopefuls A s)); [apply nodup_map_filter; exact (mi_nd _ _ _ _ _ _ (proj1 Hj))|exact Hj| |exact Hc].
   intros x Hx c Hc0 Ei. unfold hopefuls in Hx. apply filter_In in Hx. destruct Hx as [Hx Hst].
-  assert (c = x) by (apply (nodup_cid_inj A (cands s)); [exact (mi_nd _ _ _ _ _ (proj1 Hj))|exact Hx|exact Hc0|exact Ei]). subst c.
+  assert (c = x) by (apply (nodup_cid_inj A (cands s)); [exact (mi_nd _ _ _ _ _ _ (proj1 Hj))|exact Hx|exact Hc0|exact Ei]). subst c.
   unfold in_state in Hst. destruct (cst x); cbn in Hst; congruence.
 Qed.
 
@@ -607,11 +607,11 @@ Notation T3 := (triple est (@crashed A)).
 
 Lemma j_same (s s' : est) : cands s' = cands s -> ballots s' = ballots s -> eballots s' = eballots s -> actions s' = actions s ->
   quota s' = quota s -> J s -> J s'.
-Proof. intros E1 E2 E3 E4 E5 [M K]. split; [exact (mi_same A S ZL T0 s s' E1 E2 E3 E4 M)|exact (ki_same s s' E1 E2 E3 E5 E4 K)]. Qed.
+Proof. intros E1 E2 E3 E4 E5 [M K]. split; [exact (mi_same A S ZL cfg T0 s s' E1 E2 E3 E4 M)|exact (ki_same s s' E1 E2 E3 E5 E4 K)]. Qed.
 Lemma jv_same (s s' : est) : cands s' = cands s -> ballots s' = ballots s -> eballots s' = eballots s -> actions s' = actions s ->
   quota s' = quota s -> residual s' = residual s -> JV s -> JV s'.
 Proof.
-  intros E1 E2 E3 E4 E5 E6 (V & K & N). split; [exact (mv_same A S ZL T0 s s' E1 E2 E3 E4 E6 V)|split; [exact (ki_same s s' E1 E2 E3 E5 E4 K)|exact (nn_same s s' E1 E6 N)]].
+  intros E1 E2 E3 E4 E5 E6 (V & K & N). split; [exact (mv_same A S ZL cfg T0 s s' E1 E2 E3 E4 E6 E5 V)|split; [exact (ki_same s s' E1 E2 E3 E5 E4 K)|exact (nn_same s s' E1 E6 N)]].
 Qed.
 Lemma jv_j (s : est) : JV s -> J s. Proof. intros ([M _] & K & _). split; assumption. Qed.
 
@@ -635,7 +635,7 @@ Proof.
       eapply t_seq with (M := JV).
       { apply t_do. intros s [([M V] & K & N) _].
         match goal with |- JV (set_status ?x _) => apply (jv_same x); [reflexivity|reflexivity|reflexivity|reflexivity|reflexivity|reflexivity|] end.
-        split; [split; [apply (mi_log A S ZL cfg T0 Hmeth); [discriminate|exact M]|apply cv_log; exact V]|split; [apply ki_log; [discriminate|exact K]|apply nn_log; exact N]]. }
+        split; [split; [apply (mi_log A S ZL cfg T0 Hmeth); [discriminate|exact M]|apply cvq_log; exact V]|split; [apply ki_log; [discriminate|exact K]|apply nn_log; exact N]]. }
       apply t_break'. auto. }
     eapply t_seq with (M := JV).
     { apply t_do. intros s H. revert H. apply jv_same; reflexivity. }
@@ -645,7 +645,7 @@ Proof.
       apply t_break'. auto. }
     apply t_do. intros s ([M V] & K & N). split.
     + apply mi_update_kfs. revert M. apply mi_same; reflexivity.
-    + apply ki_update_kfs; [exact (mi_nd _ _ _ _ _ M)|revert K; apply ki_same; reflexivity|exact (proj1 N)].
+    + apply ki_update_kfs; [exact (mi_nd _ _ _ _ _ _ M)|revert K; apply ki_same; reflexivity|exact (proj1 N)].
 Qed.
 
 Lemma meek_body_triple_j (Qb : est -> Prop) : T3 J (meek_body A cfg) J Qb J.
@@ -668,7 +668,7 @@ Proof.
 Qed.
 
 Variable ids : list Z.
-Theorem meek_triple_j (Qb Qc : est -> Prop) : T3 (fun s => Pre0 A S ZL T0 ids s /\ PreK s) (meek A cfg) J Qb Qc.
+Theorem meek_triple_j (Qb Qc : est -> Prop) : T3 (fun s => Pre0 A S ZL cfg T0 ids s /\ PreK s) (meek A cfg) J Qb Qc.
 Proof.
   rewrite meek_unfold.
   eapply t_seq with (M := J).
